@@ -60,6 +60,15 @@ PagingPartition == \A n \in 0..MaxN, size \in 1..(MaxN + 1) :
     /\ UNION {PageOf(n, p, size) : p \in pages} = 1..n
     /\ \A p \in pages, q \in pages : p # q => PageOf(n, p, size) \cap PageOf(n, q, size) = {}
 
+\* the key an entry of a release request addresses depends on that entry alone (a request may carry several entries):
+\* appType omitted = statefulset (documented default)
+PrefixOfAppType(t) == CASE t \in {"", "statefulset"} -> "sts_" [] t = "deployment" -> "dp_" [] t = "NULL" -> "NULL_" [] OTHER -> t \o "_"
+EntryKey(e) == PoolPart(e.poolName) \o PrefixOfAppType(e.appType) \o e.namespace \o "_" \o e.appName \o "_" \o e.podName
+EntryAddressesOwnKey == \A y \in Pods :
+    /\ EntryKey(Vector(y).entry) = Vector(y).key
+    /\ y.kind = "StatefulSet" => EntryKey([Vector(y).entry EXCEPT !.appType = ""]) = Vector(y).key
+
+ASSUME EntryAddressesOwnKey
 ASSUME PagingPartition
 ASSUME JsonSerialize(OutFile, [n |-> Cardinality(Pods), vectors |-> {Vector(x) : x \in Pods}])
 ASSUME PrintT(<<"VECTORS", Cardinality(Pods)>>)
